@@ -8,7 +8,7 @@ LEVEL = "model_checking"
 RULE = ("BFS over histories of {outside rewrite of a position to every kind (null, scalar, {}, non-empty dict, "
         "[], shorter list, longer list, removed), read operations on roots and on child handles retained "
         "beforehand, writes through retained children, a second object on the same resource and writes through "
-        "it}; each read must return the reference content at call time, a still-attached child must see fresh "
+        "it, multi-element mutators rejected half-way (the reference then follows whatever the backend holds)}; each read must return the reference content at call time, a still-attached child must see fresh "
         "data and its write must land in the resource; a child is dropped from the alphabet as soon as its "
         "position stops holding a container of the same kind or is reassigned through its own parent object; "
         "non-trivial = distinct reached states")
@@ -87,6 +87,16 @@ def alphabet(ref, task):
             ev.append(("op", h, "setitem", ("w", 1)))
         else:
             ev.append(("op", h, "append", ("w",)))
+    # a mutator that is rejected half-way (valid entries first, then a forbidden value): whatever it leaves in the
+    # backend, later reads must show exactly that - not a half-merged in-memory state
+    for h in ref.attached_handles()[:2]:
+        bad = ("#bad", "object")
+        if ref.handle_kind(h) == "dict":
+            ev.append(("opx", h, "reset", ({"a": 5, "k": 6, "zz": bad},)))
+            ev.append(("opx", h, "update", ({"k": 6, "b": 5, "zz": bad}, {})))
+        else:
+            ev.append(("opx", h, "reset", ([7, [8], bad],)))
+            ev.append(("opx", h, "extend", ([7, bad],)))
     if len(ref.obj_res) < 2:
         ev.append(("new", 0))
     else:
